@@ -235,8 +235,11 @@ def make_cases(ctx: Ctx, rng):
 
 
 def spec_level(ctx: Ctx):
-    names = [f"ev_imp{t}" for t in range(1, 10)] + ["ev_imppair", "ev_addremove", "ev_durations"]
-    mutants = {"coded_prune": "NeverTwice", "coded_prio": "OnlyAddressee"}
+    names = [f"ev_imp{t}" for t in range(1, 10)] + ["ev_imppair", "ev_addremove", "ev_durations",
+                                                     "live_events", "live_addremove", "live_faults"]
+    # coded_prio_stuck: as coded, an engine is handed a priority event for a target it does not own and can never
+    # handle it - the step loop gets stuck, which the liveness property RunCompletes (fair spec) exposes
+    mutants = {"coded_prune": "NeverTwice", "coded_prio": "OnlyAddressee", "coded_prio_stuck": "RunCompletes"}
 
     def one(name):
         return name, tlc.run_tlc("MCResonaate", f"MCResonaate_{name}.cfg", ctx.sub("mc_" + name),
